@@ -52,6 +52,9 @@ func c04(c *core.Check) {
 			okAll := true
 			why := ""
 			for _, a := range vc.OperandAs {
+				if typeSwitchWithDefault(c, a.Node) {
+					continue // a type switch over the operand that has a default clause takes an operand of any type
+				}
 				if !has(a.Types, es.OpndType) {
 					okAll = false
 					why = fmt.Sprintf("the VM case %s asserts i.Operand.(%s) but this site emits an operand of Go type %s", op, strings.Join(a.Types, "|"), es.OpndType)
@@ -411,6 +414,34 @@ func c04(c *core.Check) {
 		})
 	}
 	c.Floor("C04-R5", 2)
+}
+
+// typeSwitchWithDefault reports whether n is the guard `x.(type)` of a type switch that has a default clause.
+func typeSwitchWithDefault(c *core.Check, n ast.Node) bool {
+	ta, ok := n.(*ast.TypeAssertExpr)
+	if !ok || ta.Type != nil {
+		return false
+	}
+	f := funcContaining(c, ta)
+	if f == nil {
+		return false
+	}
+	found := false
+	ast.Inspect(f.Body, func(x ast.Node) bool {
+		ts, ok := x.(*ast.TypeSwitchStmt)
+		if !ok || found {
+			return !found
+		}
+		if ts.Assign.Pos() <= ta.Pos() && ta.End() <= ts.Assign.End() {
+			for _, cl := range ts.Body.List {
+				if cl.(*ast.CaseClause).List == nil {
+					found = true
+				}
+			}
+		}
+		return true
+	})
+	return found
 }
 
 func pick(cond bool, a, b string) string {
